@@ -201,7 +201,7 @@ MulS1 ==
 MulA2 == pc = "mulA2" /\ Goto("mulR2", IF Tampered("M2") THEN AlterM2(msg, cs.t) ELSE msg, NoSt)
 
 \* MultiplyReceiver.Round2 = AdditiveOTReceiver.Round2 (mask, decode) + integrity check + share
-Missing(m)  == m.padlist = "short" \/ m.rlist = "short"        \* fewer entries than the batch: must be refused
+Missing(m)  == m.padlist \in {"short", "long"} \/ m.rlist \in {"short", "long"}   \* a list that does not have exactly one entry per batch index is refused
 BadLen(m)   == \E s \in Slots, k \in {1, 2} : m.pad[s][k] \in {"short", "long"}     \* Scalar.UnmarshalBinary
 Eff(m, s, k) == IF SlotChoice(s) = 0 THEN "ok" ELSE m.pad[s][k]                    \* pad &= -choice
 Chk(m, s)   == \/ Variant = "nocheck"
